@@ -10,9 +10,14 @@ def main():
     chk.unit('src/engine/engine_core_util.c', 'mj_warning', C, 'math', 'fp', check_arith=False)
     for fn in ('mj_checkPos', 'mj_checkVel', 'mj_checkAcc'):
         chk.unit('src/engine/engine_forward.c', fn, C, 'math', 'fp')
+    # the bad-control check: a PREFIX contract of mj_fwdActuation (entry .. exit of the control-check loop; the path stops there)
+    from contracts import actuation
+    chk.unit('src/engine/engine_forward.c', 'mj_fwdActuation', actuation.contracts(), 'math', 'fp', prefix='[prefix]')
+    chk.assumptions |= {'mj_fwdActuation is verified as a prefix (up to the exit of the control-check loop): the activation dynamics and force computation after it are not part of the verified text',
+                        'mj_fwdActuation prefix: the stack allocator returns a fresh block of the requested size or does not return (its body is proved under C19); mj_readCtrl (delayed controls) and clampVec '
+                        '(proved under C27 for NaN-free input) are used by frame only; the timer callback mjcb_time is effect-free; timer counter below INT_MAX; actuator control blocks lie inside ctrl (model invariant)'}
     chk.assumptions |= {'mj_resetData clears the warning counters and may rewrite all of mjData (assumed contract; its body is not verified)',
                         'mj_forward keeps the warning statistics (assumed)', 'warning counters stay below INT_MAX - 2'}
     chk.out_of_reach += ['"after mj_step every state component is finite": whole pipeline in floating point',
-                         'the bad-ctrl check inside mj_fwdActuation (650-line function, not under contract)',
                          'which entries of a sleeping tree may carry a bad value (the sleep filter checks awake dofs only, by design)']
     return chk.finish()
